@@ -145,9 +145,9 @@ pub fn gen(tier: &str, seed: u64) -> Gen {
         " 3 ", "0x10", "1 2", "a b c d", "{a} b", "set m $n; incr m", "1e2", "007", "+5", "true", " 12", "a\tb",
         "k v k w", "{1 2} {3 4}", "-0", "0.0", "1.50", "  ", "", "llength {a b}", "list a b", "9223372036854775807",
         "-9223372036854775808", "0b1", "Inf", "NaN", "yes", "off", "set n", "incr m; incr m", "return $n", "{",
-        "a {b c} d e", "1 ", "\n2", "$n", "[incr m]", "x;y",
+        "a {b c} d e", "1 ", "\n2", "$n", "[incr m]", "x;y", "\"p }\" x", "\"{\" q", "a\\ b c", "{a}  {b}",
     ];
-    let views: [(&str, &str); 16] = [
+    let views: [(&str, &str); 17] = [
         ("incr m $s", "incr m [ident $s]"),
         ("expr {$s + 1}", "expr {[ident $s] + 1}"),
         ("expr {$s ? \"t\" : \"f\"}", "expr {[ident $s] ? \"t\" : \"f\"}"),
@@ -163,6 +163,7 @@ pub fn gen(tier: &str, seed: u64) -> Gen {
         ("set n $s; expr {$n * 2}", "set n [ident $s]; expr {[ident $n] * 2}"),
         ("dict get $s k", "dict get [ident $s] k"),
         ("expr $s", "expr [ident $s]"),
+        ("list $s y", "list [ident $s] y"),
         ("set n $s; llength $n", "set n [ident $s]; llength [ident $n]"),
     ];
     let nv = if thorough { 60_000 } else { 2500 };
